@@ -1046,6 +1046,17 @@ theorem C10_restart_grammar_distribution (G : TT S Unit) (tags0 : Tags S Unit) (
         rowSum row = 1 ∧ ∀ P ∈ AList.keys row, 0 < weight t nt P :=
   restartTags_distribution G tags0 data prior hG hcov hrows hdata hnn hp
 
+/-- **C10_restart_grammar_spec.** Model = specification: the weight `_restart_` gives to rule `P` of a
+    non-terminal is `specWeight` — (accumulated score of `P` + prior/|row|) divided by the sum of
+    these numbers over the rules of the non-terminal: *proportional to the accumulated scores*,
+    smoothed by the prior. -/
+theorem C10_restart_grammar_spec (G : TT S Unit) (tags0 : Tags S Unit) (data : List (Prog × Rat)) (prior : Rat)
+    (hcov : Covers G tags0) (hrows : RowsOf G tags0) (hdata : ∀ d ∈ data, gen G d.1 G.start = true) :
+    ∃ t, restartTags G tags0 data prior = some t ∧
+      ∀ nt rs, AList.lookup nt G.rules = some rs → (AList.keys rs).Nodup →
+        ∀ P ∈ AList.keys rs, weight t nt P = specWeight G data prior nt (AList.keys rs) P :=
+  restartTags_specWeight G tags0 data prior hcov hrows hdata
+
 namespace ExampleG
 /-- a grammar with two non-terminals: `int@0 → f(int@1) | a`, `int@1 → a | b` -/
 def int : Ty := .base "int"
